@@ -343,6 +343,118 @@ fn raddr_coq(r: (u8, bool)) -> String {
     format!("({}, {})", r.0, coq_bool(r.1))
 }
 
+
+// ---- deterministic boundary family (identical for every seed) -------------------------------------------
+enum Preset {
+    Validate(&'static str, ManifestResourceConstraint, Vec<Decimal>, Vec<Ids>),
+    Normalize(&'static str, GeneralResourceConstraint),
+    Constraints(&'static str, Vec<((u8, bool), ManifestResourceConstraint)>, Vec<((u8, bool), Decimal)>, Vec<((u8, bool), Ids)>, bool),
+}
+fn gen_c(req: &[u64], lo: LowerBound, hi: UpperBound, allow: Option<&[u64]>) -> GeneralResourceConstraint {
+    GeneralResourceConstraint { required_ids: idset(&req.to_vec()), lower_bound: lo, upper_bound: hi,
+        allowed_ids: match allow { Some(a) => AllowedIds::Allowlist(idset(&a.to_vec())), None => AllowedIds::Any } }
+}
+fn li(units: i128, attos: i128) -> LowerBound { LowerBound::Inclusive(dec(units * scale() + attos)) }
+fn ui(units: i128, attos: i128) -> UpperBound { UpperBound::Inclusive(dec(units * scale() + attos)) }
+fn boundary_family() -> Vec<Preset> {
+    use ManifestResourceConstraint as C;
+    let s = scale();
+    let around = |d: i128| vec![dec(d - 1), dec(d), dec(d + 1)];
+    let mut f: Vec<Preset> = vec![];
+    // --- simple kinds: both sides of every comparison and the equality point, fungible and non-fungible
+    f.push(Preset::Validate("b_nonzero", C::NonZeroAmount, vec![dec(0), dec(1), dec(s), Decimal::MAX], vec![vec![], vec![5], vec![5, 6]]));
+    for (cls, d) in [("b_exact_0", 0i128), ("b_exact_1atto", 1), ("b_exact_2units", 2 * s), ("b_exact_2units_plus", 2 * s + 1), ("b_exact_2units_minus", 2 * s - 1), ("b_exact_neg_1atto", -1), ("b_exact_neg_unit", -s)] {
+        f.push(Preset::Validate(cls, C::ExactAmount(dec(d)), { let mut a = around(d); a.push(dec(0)); a }, vec![vec![], vec![1], vec![1, 2], vec![2, 1, 3]]));
+    }
+    f.push(Preset::Validate("b_exact_max", C::ExactAmount(Decimal::MAX), vec![Decimal::MAX, Decimal::MAX - dec(1), dec(0)], vec![vec![], vec![1]]));
+    for (cls, d) in [("b_atleast_0", 0i128), ("b_atleast_1atto", 1), ("b_atleast_2units", 2 * s), ("b_atleast_2units_plus", 2 * s + 1), ("b_atleast_2units_minus", 2 * s - 1), ("b_atleast_neg_1atto", -1)] {
+        f.push(Preset::Validate(cls, C::AtLeastAmount(dec(d)), { let mut a = around(d); a.push(dec(0)); a.push(Decimal::MAX); a }, vec![vec![], vec![1], vec![1, 2], vec![2, 1, 3]]));
+    }
+    f.push(Preset::Validate("b_exact_ids", C::ExactNonFungibles(idset(&vec![1, 2, 3])), vec![dec(0), dec(3 * s)],
+        vec![vec![1, 2, 3], vec![3, 2, 1], vec![1, 2], vec![2, 3], vec![1, 3], vec![1, 2, 3, 4], vec![4, 1, 2, 3], vec![], vec![4, 5, 6]]));
+    f.push(Preset::Validate("b_exact_ids_empty", C::ExactNonFungibles(idset(&vec![])), vec![dec(0)], vec![vec![], vec![1]]));
+    f.push(Preset::Validate("b_exact_ids_single", C::ExactNonFungibles(idset(&vec![7])), vec![dec(s)], vec![vec![7], vec![], vec![8], vec![7, 8], vec![8, 7]]));
+    f.push(Preset::Validate("b_atleast_ids", C::AtLeastNonFungibles(idset(&vec![1, 2, 3])), vec![dec(0), dec(3 * s)],
+        vec![vec![1, 2, 3], vec![3, 1, 2, 9], vec![1, 2], vec![2, 3], vec![1, 3], vec![], vec![9]]));
+    f.push(Preset::Validate("b_atleast_ids_empty", C::AtLeastNonFungibles(idset(&vec![])), vec![dec(0)], vec![vec![], vec![1]]));
+    // --- General: numeric bounds at equality and +-1 atto, for both uses
+    let nums = |lo: i128, hi: i128| -> Vec<Decimal> { let mut v = around(lo); v.extend(around(hi)); v.push(dec(0)); v.push(Decimal::MAX); v };
+    f.push(Preset::Validate("b_gen_lower_eq_upper", C::General(gen_c(&[], li(2, 0), ui(2, 0), None)), nums(2 * s, 2 * s), vec![vec![], vec![1], vec![1, 2], vec![1, 2, 3]]));
+    f.push(Preset::Validate("b_gen_lower_gt_upper_1atto", C::General(gen_c(&[], li(2, 1), ui(2, 0), None)), nums(2 * s + 1, 2 * s), vec![vec![1, 2]]));
+    f.push(Preset::Validate("b_gen_lower_lt_upper_1atto", C::General(gen_c(&[], li(2, 0), ui(2, 1), None)), nums(2 * s, 2 * s + 1), vec![vec![1, 2], vec![1, 2, 3]]));
+    f.push(Preset::Validate("b_gen_nonzero_upper0", C::General(gen_c(&[], LowerBound::NonZero, ui(0, 0), None)), vec![dec(0), dec(1)], vec![vec![], vec![1]]));
+    f.push(Preset::Validate("b_gen_nonzero_upper_1atto", C::General(gen_c(&[], LowerBound::NonZero, ui(0, 1), None)), vec![dec(0), dec(1), dec(2)], vec![vec![], vec![1]]));
+    f.push(Preset::Validate("b_gen_nonzero_upper1", C::General(gen_c(&[], LowerBound::NonZero, ui(1, 0), None)), vec![dec(0), dec(1), dec(s), dec(s + 1)], vec![vec![], vec![1], vec![1, 2]]));
+    f.push(Preset::Validate("b_gen_zero_unbounded", C::General(gen_c(&[], li(0, 0), UpperBound::Unbounded, None)), vec![dec(0), dec(1), Decimal::MAX, dec(-1)], vec![vec![], vec![1]]));
+    f.push(Preset::Validate("b_gen_neg_lower", C::General(gen_c(&[], li(0, -1), ui(1, 0), None)), vec![dec(0), dec(-1), dec(s)], vec![vec![]]));
+    f.push(Preset::Validate("b_gen_neg_upper", C::General(gen_c(&[], li(0, 0), ui(0, -1), None)), vec![dec(0), dec(-1)], vec![vec![]]));
+    f.push(Preset::Validate("b_gen_fractional_bounds", C::General(gen_c(&[], li(1, 1), ui(2, -1), None)), nums(s + 1, 2 * s - 1), vec![vec![1], vec![1, 2]]));
+    f.push(Preset::Validate("b_gen_upper_max", C::General(gen_c(&[], li(0, 0), UpperBound::Inclusive(Decimal::MAX), None)), vec![Decimal::MAX, dec(0)], vec![vec![1]]));
+    // --- General: required / allow-list interplay
+    f.push(Preset::Validate("b_gen_required_eq_allow", C::General(gen_c(&[1, 2], li(2, 0), ui(2, 0), Some(&[2, 1]))), vec![dec(2 * s)], vec![vec![1, 2], vec![2, 1], vec![1], vec![2], vec![1, 2, 3], vec![], vec![3]]));
+    f.push(Preset::Validate("b_gen_required_not_subset", C::General(gen_c(&[1, 2], li(0, 0), ui(3, 0), Some(&[1, 3]))), vec![dec(s)], vec![vec![1, 2], vec![1, 3], vec![1]]));
+    f.push(Preset::Validate("b_gen_required_missing_first_last", C::General(gen_c(&[1, 2, 3], li(0, 0), UpperBound::Unbounded, None)), vec![dec(0)], vec![vec![2, 3], vec![1, 2], vec![1, 3], vec![1, 2, 3], vec![3, 2, 1, 4]]));
+    f.push(Preset::Validate("b_gen_not_allowed_first_last", C::General(gen_c(&[], li(0, 0), UpperBound::Unbounded, Some(&[1, 2, 3]))), vec![dec(0)], vec![vec![9, 1, 2], vec![1, 2, 9], vec![1, 9, 2], vec![1, 2, 3], vec![], vec![9]]));
+    f.push(Preset::Validate("b_gen_required_count_vs_upper", C::General(gen_c(&[1, 2], li(0, 0), ui(2, 0), None)), vec![dec(2 * s)], vec![vec![1, 2], vec![1, 2, 3]]));
+    f.push(Preset::Validate("b_gen_required_count_gt_upper", C::General(gen_c(&[1, 2, 3], li(0, 0), ui(2, 0), None)), vec![dec(2 * s)], vec![vec![1, 2, 3], vec![1, 2]]));
+    f.push(Preset::Validate("b_gen_required_count_gt_upper_1atto", C::General(gen_c(&[1, 2], li(0, 0), ui(2, -1), None)), vec![dec(2 * s)], vec![vec![1, 2]]));
+    f.push(Preset::Validate("b_gen_lower_eq_allow_len", C::General(gen_c(&[], li(2, 0), ui(5, 0), Some(&[1, 2]))), vec![dec(2 * s)], vec![vec![1, 2], vec![1], vec![1, 2, 3]]));
+    f.push(Preset::Validate("b_gen_lower_gt_allow_len", C::General(gen_c(&[], li(3, 0), ui(5, 0), Some(&[1, 2]))), vec![dec(3 * s)], vec![vec![1, 2]]));
+    f.push(Preset::Validate("b_gen_lower_gt_allow_len_1atto", C::General(gen_c(&[], li(2, 1), ui(5, 0), Some(&[1, 2]))), vec![dec(2 * s + 1)], vec![vec![1, 2]]));
+    f.push(Preset::Validate("b_gen_nonzero_empty_allow", C::General(gen_c(&[], LowerBound::NonZero, ui(5, 0), Some(&[]))), vec![dec(0), dec(1)], vec![vec![], vec![1]]));
+    f.push(Preset::Validate("b_gen_empty_allow_zero_upper", C::General(gen_c(&[], li(0, 0), ui(0, 0), Some(&[]))), vec![dec(0), dec(1)], vec![vec![], vec![1]]));
+    f.push(Preset::Validate("b_gen_empty_allow_pos_upper", C::General(gen_c(&[], li(0, 0), ui(3, 0), Some(&[]))), vec![dec(0), dec(1), dec(3 * s)], vec![vec![], vec![1]]));
+    f.push(Preset::Validate("b_gen_fungible_with_required", C::General(gen_c(&[1], li(0, 0), ui(3, 0), None)), vec![dec(0), dec(s)], vec![vec![1], vec![]]));
+    f.push(Preset::Validate("b_gen_fungible_nonempty_allow", C::General(gen_c(&[], li(0, 0), ui(3, 0), Some(&[1]))), vec![dec(0), dec(s)], vec![vec![1], vec![]]));
+    // --- normalize: every comparison at equality and on both sides
+    for (cls, g) in [
+        ("n_lower_lt_required", gen_c(&[1, 2], li(1, 0), ui(5, 0), None)),
+        ("n_lower_eq_required", gen_c(&[1, 2], li(2, 0), ui(5, 0), None)),
+        ("n_lower_gt_required", gen_c(&[1, 2], li(3, 0), ui(5, 0), None)),
+        ("n_nonzero_required0", gen_c(&[], LowerBound::NonZero, ui(5, 0), None)),
+        ("n_nonzero_required1", gen_c(&[1], LowerBound::NonZero, ui(5, 0), None)),
+        ("n_allow_lt_upper", gen_c(&[], li(0, 0), ui(5, 0), Some(&[1, 2, 3]))),
+        ("n_allow_eq_upper", gen_c(&[], li(0, 0), ui(3, 0), Some(&[1, 2, 3]))),
+        ("n_allow_gt_upper", gen_c(&[], li(0, 0), ui(2, 0), Some(&[1, 2, 3]))),
+        ("n_allow_lt_unbounded", gen_c(&[], li(0, 0), UpperBound::Unbounded, Some(&[1, 2, 3]))),
+        ("n_required_eq_upper_any", gen_c(&[1, 2], li(0, 0), ui(2, 0), None)),
+        ("n_required_eq_upper_allow", gen_c(&[1, 2], li(0, 0), ui(2, 0), Some(&[1, 2, 3]))),
+        ("n_required_lt_upper", gen_c(&[1, 2], li(0, 0), ui(3, 0), Some(&[1, 2, 3, 4]))),
+        ("n_required_eq_allow_same_order", gen_c(&[1, 2], li(0, 0), ui(5, 0), Some(&[1, 2]))),
+        ("n_required_eq_allow_other_order", gen_c(&[1, 2], li(0, 0), ui(5, 0), Some(&[2, 1]))),
+        ("n_allow_eq_lower", gen_c(&[1], li(3, 0), ui(5, 0), Some(&[3, 1, 2]))),
+        ("n_allow_eq_lower_after_tighten", gen_c(&[1, 2, 3], li(0, 0), ui(5, 0), Some(&[3, 1, 2, 4]))),
+        ("n_allow_gt_lower", gen_c(&[1], li(2, 0), ui(5, 0), Some(&[3, 1, 2]))),
+        ("n_lower_eq_upper", gen_c(&[1], li(2, 0), ui(2, 0), Some(&[1, 2, 3]))),
+        ("n_lower_eq_upper_eq_required", gen_c(&[1, 2], li(2, 0), ui(2, 0), Some(&[1, 2, 3]))),
+        ("n_zero_upper_any", gen_c(&[], li(0, 0), ui(0, 0), None)),
+        ("n_zero_upper_empty_allow", gen_c(&[], li(0, 0), ui(0, 0), Some(&[]))),
+        ("n_empty_allow_pos_upper", gen_c(&[], li(0, 0), ui(3, 0), Some(&[]))),
+        ("n_nonzero_allow1", gen_c(&[], LowerBound::NonZero, ui(5, 0), Some(&[4]))),
+        ("n_fractional", gen_c(&[], li(1, 1), ui(2, -1), Some(&[1, 2]))),
+        ("n_invalid_required_gt_allow", gen_c(&[1, 2, 3], li(0, 0), ui(5, 0), Some(&[1]))),
+    ] { f.push(Preset::Normalize(cls, g)); }
+    // --- ManifestResourceConstraints::validate: prevent flag x unspecified balances, first/last failing
+    let fr = |k: u8| (k, true); let nr = |k: u8| (k, false);
+    let two = || vec![(fr(0), C::AtLeastAmount(dec(s))), (nr(1), C::AtLeastNonFungibles(idset(&vec![1])))];
+    f.push(Preset::Constraints("m_all_ok", two(), vec![(fr(0), dec(s))], vec![(nr(1), vec![1])], true));
+    f.push(Preset::Constraints("m_first_fails_1atto", two(), vec![(fr(0), dec(s - 1))], vec![(nr(1), vec![1])], true));
+    f.push(Preset::Constraints("m_last_fails", two(), vec![(fr(0), dec(s))], vec![(nr(1), vec![2])], false));
+    f.push(Preset::Constraints("m_both_fail", two(), vec![(fr(0), dec(1))], vec![], false));
+    f.push(Preset::Constraints("m_absent_balances", two(), vec![], vec![], false));
+    f.push(Preset::Constraints("m_unspecified_fungible_prevent", two(), vec![(fr(0), dec(s)), (fr(2), dec(1))], vec![(nr(1), vec![1])], true));
+    f.push(Preset::Constraints("m_unspecified_fungible_allowed", two(), vec![(fr(0), dec(s)), (fr(2), dec(1))], vec![(nr(1), vec![1])], false));
+    f.push(Preset::Constraints("m_unspecified_nf_prevent", two(), vec![(fr(0), dec(s))], vec![(nr(1), vec![1]), (nr(3), vec![9])], true));
+    f.push(Preset::Constraints("m_unspecified_nf_allowed", two(), vec![(fr(0), dec(s))], vec![(nr(1), vec![1]), (nr(3), vec![9])], false));
+    f.push(Preset::Constraints("m_unspecified_and_failing_prevent", two(), vec![(fr(0), dec(0 + 1)), (fr(2), dec(1))], vec![], true));
+    f.push(Preset::Constraints("m_empty_constraints_prevent", vec![], vec![(fr(0), dec(1))], vec![], true));
+    f.push(Preset::Constraints("m_empty_constraints_empty_balances", vec![], vec![], vec![], true));
+    f.push(Preset::Constraints("m_zero_exact_absent", vec![(fr(0), C::ExactAmount(dec(0))), (nr(1), C::ExactNonFungibles(idset(&vec![])))], vec![], vec![], true));
+    f.push(Preset::Constraints("m_invalid_for_type", vec![(fr(0), C::ExactNonFungibles(idset(&vec![1]))), (nr(1), C::ExactAmount(dec(s / 2)))], vec![(fr(0), dec(s))], vec![(nr(1), vec![1])], false));
+    f.push(Preset::Constraints("m_general_mix", vec![(fr(0), C::General(gen_c(&[], LowerBound::NonZero, ui(2, 0), None))), (nr(1), C::General(gen_c(&[1], li(1, 0), ui(2, 0), Some(&[1, 2]))))], vec![(fr(0), dec(2 * s))], vec![(nr(1), vec![2, 1])], true));
+    f
+}
+
 fn main() {
     let args = Args::parse();
     let mut report = Report::new(
@@ -356,12 +468,16 @@ fn main() {
     );
     let mut cw = CaseWriter::new("RV.Corr.C37_run RV.Model.C37_Constraint", "check");
     let root = Rng::new(args.seed);
-    for i in 0..args.cases {
+    let family = boundary_family();
+    let mut family_classes: Vec<&'static str> = vec![];
+    for i in 0..args.cases.max(family.len()) {
         let mut rng = root.fork(i as u64);
-        let stream = i % 10;
+        let preset = family.get(i);
+        let stream = match preset { Some(Preset::Validate(..)) => 0, Some(Preset::Normalize(..)) => 6, Some(Preset::Constraints(..)) => 8, None => i % 10 };
+        if let Some(p) = preset { let cls = match p { Preset::Validate(c, ..) | Preset::Normalize(c, ..) | Preset::Constraints(c, ..) => *c }; report.count(cls); family_classes.push(cls); }
         if stream < 6 {
             // ---------- (a) single constraint ----------
-            let c = gen_constraint(&mut rng, &mut report);
+            let c = match preset { Some(Preset::Validate(_, c, _, _)) => c.clone(), _ => gen_constraint(&mut rng, &mut report) };
             let vf = c.is_valid_for_fungible_use();
             let vnf = c.is_valid_for_non_fungible_use();
             report.count(if vf { "valid_fungible" } else { "invalid_fungible" });
@@ -389,6 +505,7 @@ fn main() {
             while amounts.len() < 8 {
                 amounts.push(gen_amount(&mut rng, true));
             }
+            if let Some(Preset::Validate(_, _, a, _)) = preset { amounts = a.clone(); }
             // id sets near the constraint's own sets
             let (req, allow): (Ids, Option<Ids>) = match &c {
                 ManifestResourceConstraint::ExactNonFungibles(s) | ManifestResourceConstraint::AtLeastNonFungibles(s) => (ids_of(s), None),
@@ -413,6 +530,7 @@ fn main() {
                 rng.shuffle(&mut s);
                 sets.push(s);
             }
+            if let Some(Preset::Validate(_, _, _, st)) = preset { sets = st.clone(); }
             let fres: Vec<_> = amounts.iter().map(|a| { let c2 = c.clone(); let a2 = *a; catch(move || c2.validate_fungible(a2)) }).collect();
             let nres: Vec<_> = sets.iter().map(|s| { let c2 = c.clone(); let s2 = idset(s); catch(move || c2.validate_non_fungible(&s2)) }).collect();
             let canon = format!("{}|{:?}|{:?}", constraint_coq(&c), amounts, sets);
@@ -508,7 +626,7 @@ fn main() {
             ));
         } else if stream < 8 {
             // ---------- (b) normalize ----------
-            let g = gen_general(&mut rng, &mut report);
+            let g = match preset { Some(Preset::Normalize(_, g)) => g.clone(), _ => gen_general(&mut rng, &mut report) };
             let mut n = g.clone();
             let r = catch(std::panic::AssertUnwindSafe(|| n.normalize()));
             if r.is_err() {
@@ -521,7 +639,7 @@ fn main() {
             cw.push(format!("CNormalize {} {}", general_coq(&g), general_coq(&n)));
         } else {
             // ---------- (c) ManifestResourceConstraints ----------
-            let nres = rng.range(1, 4) as usize;
+            let nres = if preset.is_some() { 0 } else { rng.range(1, 4) as usize };
             let mut addrs: Vec<(u8, bool)> = (0..6u8).map(|k| (k, k % 2 == 0)).collect();
             rng.shuffle(&mut addrs);
             let mut cs = ManifestResourceConstraints::new();
@@ -543,6 +661,12 @@ fn main() {
             let mut nb: Vec<((u8, bool), Ids)> = vec![];
             let mut order = addrs.clone();
             rng.shuffle(&mut order);
+            if preset.is_some() { order.clear(); }
+            if let Some(Preset::Constraints(_, pcs, pfb, pnb, _)) = preset {
+                for (r, c) in pcs { cs = cs.with_unchecked(raddr(r.0, r.1), c.clone()); cs_list.push((*r, c.clone())); }
+                for (r, a) in pfb { bal.add_fungible(raddr(r.0, r.1), *a); fb.push((*r, *a)); }
+                for (r, st) in pnb { bal.add_non_fungible(raddr(r.0, r.1), idset(st)); nb.push((*r, st.clone())); }
+            }
             for (ix, fung) in order {
                 let specified = cs_list.iter().find(|(r, _)| *r == (ix, fung)).map(|(_, c)| c.clone());
                 let p_present = if specified.is_some() { 4 } else { 1 };
@@ -571,7 +695,7 @@ fn main() {
                     }
                 }
             }
-            let prevent = rng.bool();
+            let prevent = match preset { Some(Preset::Constraints(_, _, _, _, p)) => *p, _ => rng.bool() };
             let valid = cs.is_valid();
             let cs2 = cs.clone();
             let res = catch(move || cs2.validate(bal, prevent));
@@ -621,6 +745,7 @@ fn main() {
             cw.push(format!("CConstraints {} {} {} {} {}", cs_coq, b_coq, coq_bool(prevent), coq_bool(valid), res_coq));
         }
     }
+    for cls in family_classes { report.floor(cls, 1); }
     let n = args.cases as u64;
     report.floor("fungible_accept", n / 4);
     report.floor("fungible_reject", n / 4);
